@@ -12,7 +12,10 @@ import (
 	"strings"
 	"time"
 
+	"go/token"
+
 	"golang.org/x/tools/go/ssa"
+	"golang.org/x/tools/go/ssa/ssautil"
 )
 
 type PropPlan struct {
@@ -49,6 +52,44 @@ func main() {
 		os.Exit(cmdReplay(os.Args[2:]))
 	case "selftest":
 		os.Exit(cmdSelftest(os.Args[2:]))
+	case "loops":
+		// govc loops <pkg pattern> <function full-string substring>: list loop ordinals with source lines
+		prog, err := LoadProgram(repoDir, []string{os.Args[2]}, nil)
+		if err != nil {
+			fmt.Println(err)
+			os.Exit(2)
+		}
+		for fn := range ssautil.AllFunctions(prog.ssaProg) {
+			if fn.Blocks == nil || !strings.Contains(fn.String(), os.Args[3]) {
+				continue
+			}
+			loops := findLoops(fn)
+			fmt.Printf("%s: %d loops\n", fn.String(), len(loops))
+			var ls []*LoopInfo
+			for _, l := range loops {
+				ls = append(ls, l)
+			}
+			sort.Slice(ls, func(i, j int) bool { return ls[i].ord < ls[j].ord })
+			for _, l := range ls {
+				pos := token.NoPos
+				for _, ins := range l.header.Instrs {
+					if ins.Pos().IsValid() {
+						pos = ins.Pos()
+						break
+					}
+				}
+				if !pos.IsValid() {
+					for b := range l.blocks {
+						for _, ins := range b.Instrs {
+							if ins.Pos().IsValid() && (!pos.IsValid() || ins.Pos() < pos) {
+								pos = ins.Pos()
+							}
+						}
+					}
+				}
+				fmt.Printf("  loop %d: header b%d, %d blocks, %s: %s\n", l.ord, l.header.Index, len(l.blocks), prog.fset.Position(pos), prog.srcAt(pos, ""))
+			}
+		}
 	case "parse":
 		for _, f := range os.Args[2:] {
 			cf, err := ParseContractFile(f, "x")
@@ -240,6 +281,30 @@ func countInstrs(fn *ssa.Function) int {
 	return n
 }
 
+// loopSrc returns the source line of a loop's `for` statement (best effort).
+func loopSrc(prog *Program, l *LoopInfo) string {
+	pos := token.NoPos
+	for _, ins := range l.header.Instrs {
+		if ins.Pos().IsValid() {
+			pos = ins.Pos()
+			break
+		}
+	}
+	if !pos.IsValid() {
+		for b := range l.blocks {
+			for _, ins := range b.Instrs {
+				if ins.Pos().IsValid() && (!pos.IsValid() || ins.Pos() < pos) {
+					pos = ins.Pos()
+				}
+			}
+		}
+	}
+	if !pos.IsValid() {
+		return ""
+	}
+	return prog.srcAt(pos, "")
+}
+
 // verifyContract encodes one function under contract and returns its obligations.
 func verifyContract(prog *Program, prop string, fn *ssa.Function, c *FuncContract, short string) (obls []*Obl, reps []FuncReport, errs []string) {
 	onlyBody := false
@@ -275,6 +340,32 @@ func verifyContract(prog *Program, prop string, fn *ssa.Function, c *FuncContrac
 		obls = append(obls, e.obls...)
 		reps = append(reps, FuncReport{Name: e.fnName, File: relRepo(prog.fset.Position(fn.Pos()).Filename), Mode: e.mode,
 			SSAInstrs: countInstrs(fn), Obls: len(e.obls), Approx: e.approx, Notes: c.Notes})
+	}
+	// loops named by source text: resolve to ordinals
+	if len(c.LoopAnchors) > 0 {
+		all := findLoops(fn)
+		for neg, anchor := range c.LoopAnchors {
+			found := 0
+			for _, l := range all {
+				if strings.HasPrefix(normWS(loopSrc(prog, l)), normWS(anchor)) {
+					if found == 0 || l.ord < found {
+						found = l.ord
+					}
+				}
+			}
+			if found == 0 {
+				errs = append(errs, "unsupported: no loop of "+fn.Name()+" starts with \""+anchor+"\"")
+				delete(c.Loops, neg)
+				continue
+			}
+			spec := c.Loops[neg]
+			delete(c.Loops, neg)
+			if spec != nil {
+				spec.Ord = found
+				c.Loops[found] = spec
+			}
+		}
+		c.LoopAnchors = nil
 	}
 	for _, cs := range c.Cuts {
 		if !prog.anchorExists(fn, cs.Anchor, cs.Before) {
